@@ -42,6 +42,45 @@ CLAIMS = {
          "the answer must equal the exact rational combination of the children's definitions at every history (which makes it a function "
          "of the current children values only); where operands and result are dyadic the observation must be exactly that number (bit-exact).",
          "exhaustive model checking of TLA+ definitions against the implementation's complete behaviour tree", "5 C14"),
+ "C01": ("model_checking", "Product over the behaviour tree of three REAL objects per (outer, inner) pair of the catalogue: the composite "
+         "B<Tap<A<Probe>>> with the harness' transparent observation points between the crate's views, and the decomposition executed literally "
+         "(stand-alone A, its Some-answers fed into stand-alone B). TLC checks in every state: bit-identical answers, exactly one update per "
+         "observation point per top-level update carrying the raw value (outer before inner), binary nodes report iff both children do, the "
+         "moving-average slot of PFE/EFT gets exactly one update per derived value.",
+         "exhaustive model checking of composition invariants over tapped real view trees", "5 C01"),
+ "C03": ("model_checking", "Self-composition: two real runs with different prefixes (lengths 0..12, magnitudes up to 1e6) followed by every common suffix "
+         "over the alphabet; TLC checks that after K(view,N) common values the answers agree unless the specification's hold predicate "
+         "(MyRSI flat window, Roc zero base) is true.",
+         "exhaustive model checking of a two-run product (common suffix, different prefixes)", "5 C03"),
+ "C07": ("model_checking", P1 + "Range predicates of every bounded view (and the sibling relation Min <= Sma, Alma, newest <= Max at the same "
+         "node of the tree) on integer, decimal and positive alphabets, resolved to the logging resolution 1e-12. PFE's own documented formula "
+         "exceeds [-1,1]; that clause is a KNOWN-FINDING (known_findings.json KF1), any other escape is a VIOLATION.",
+         "exhaustive model checking of range invariants on real observations", "5 C07"),
+ "C08": ("model_checking", P1 + "Readiness table of the specification (Tree.KindReady), never-reverts, finiteness (debug and release builds), and "
+         "'delivered nothing => answer unchanged' for every view and two-level chains, on alphabets with zeros, flats and sign changes.",
+         "exhaustive model checking of readiness invariants on real observations", "5 C08"),
+ "C09": ("model_checking", "(a) TLC evaluates the Jury stability conditions on the specification's coefficient formulas for every window length "
+         "1..512 (4096 thorough), one state per N; (b) recorded streams of the real views (Nyquist, step, noise; pairs with a common tail) for "
+         "N in 1..64 and chains are validated by Trace_Exp.tla: bounded finite output with a length-independent bound, early values fade to 1e-9.",
+         "model checking of pole criteria over all N on the TLA+ coefficient formulas + trace validation of recorded long streams", "5 C09"),
+ "C10": ("model_checking", "Product over PAIRS of histories (x, y) with three look-ups in the real behaviour tree: view(a x + b y) = a view(x) + b view(y) "
+         "for four (a,b); homogeneity view(a x) = a view(x) for a in {-2, 3, 0, 1/3} as a two-table product; constant streams reproduced by the low-pass members.",
+         "exhaustive model checking of superposition over pairs of real runs", "5 C10"),
+ "C15": ("model_checking", P1 + "No observation of an accepted configuration is a panic, in the debug-assertion and the release build: all views, "
+         "windows 1..4 exhaustively over {-1,0,1}, windows 5..64 on constant and two-symbol streams longer and shorter than the window, two-level chains.",
+         "exhaustive model checking of a no-panic invariant on real observations (two build profiles)", "5 C15"),
+ "C16": ("exploration", "Trace validation (P3): recorded f64 (2e4 / 1e6 steps) and f32 streams over three decades, and volatile prefixes followed by "
+         ">= N+1 identical values, validated event by event by Trace_Stream.tla against the exact definition on the ghost window "
+         "(1e-6 x natural scale, 1e-2 in f32, 1e-4 after a flat window). The specification cannot explore rounding; streams are seeded samples.",
+         "trace validation of recorded float streams against exact TLA+ definitions", "5 C16"),
+ "C17": ("model_checking", "Pipeline P2: TLC generates behaviours of SF.tla / SFTwin.tla (new, update, last, clone, drop on up to 3 slots; for every view "
+         "all polling patterns and clone positions over 4 steps, all interleavings to depth 5 on 2 slots, simulation to depth 22), the harness "
+         "replays them on the real crate, Trace_SF.tla re-executes each on the abstract state (configuration, history) and requires every "
+         "answer to be a function of that pair.",
+         "TLC-generated behaviours replayed into the implementation and validated against the TLA+ top-level specification", "5 C17"),
+ "C18": ("exploration", "Trace validation (P3): live heap bytes attributable to each view (counting allocator) at L0, 4 L0, 16 L0 updates must not grow "
+         "and must stay under the specification's CellBound(view, N) (Trace_Exp.tla).",
+         "trace validation of recorded memory measurements against a TLA+ cell bound", "5 C18"),
 }
 
 def main():
